@@ -31,6 +31,9 @@ func init() {
 			func(l string) bool {
 				return l == "d.prev" || l == "d.prevJsonKey" || l == "d.prevEntityBytes" || l == "identical" || l == "isDuplicate" || l == "break" || l == "continue"
 			})))
+		// the look-ahead that protects the reference keys versions of one batch share
+		lv := mustFunc("internal/service/dataset/compact_stategy_deduplicate.go", "", "laterVersionInSameBatch")
+		o.p("def laterInBatch : List String := %s\n", leanList(topStatements(lv)))
 		fe := mustFunc("internal/service/dataset/compact.go", "CompactionWorker", "forEntity")
 		// the change-log scan (strategy.flush) runs in EVERY flush transaction, unconditionally: first
 		// statement of the Update closure
